@@ -407,7 +407,7 @@ func c20Randomness(c *eng.Ctx) {
 		// per-byte freshness: from the header of the loop over the secret, evaluate is not reachable without makePolynomial
 		c.Clause("R3", "C20.1d")
 		site = "fresh polynomial for every secret byte"
-		ls := c20LoopsOver(f, secret.Name(), false)
+		ls := c20LoopsOver(f, eng.VarName(secret), false)
 		var byteLoop *c20Loop
 		for i := range ls {
 			if ls[i].set[mk[0].Block()] {
